@@ -141,7 +141,8 @@ class BitArray(Bits):
             if len(x) != dtype.bitlength:
                 raise CreationError(f"Can't initialise with value of length {len(x)} bits, "
                                     f"as attribute has length of {dtype.bitlength} bits.")
-            self._bitstore = x._bitstore
+            # The new value might share immutable storage (e.g. with a Bits object or the string cache).
+            self._bitstore = x._bitstore._copy() if x._bitstore.immutable else x._bitstore
             return
 
     def __iadd__(self, bs: BitsType) -> BitArray:
